@@ -365,6 +365,21 @@ def _apply_custom_io_names_on_ir(
             raise ValueError(
                 f"output_names length ({len(output_names)}) does not match graph outputs ({len(graph_outputs)})."
             )
+        # A result leaf that is a positional input, or that repeats an earlier
+        # leaf, shares its ir.Value with that input / output.  Give it a value of
+        # its own so that every output can carry exactly the requested name.
+        taken = {id(value) for value in graph.inputs}
+        for index, value in enumerate(graph_outputs):
+            if id(value) in taken:
+                alias = ir.Value(
+                    name=f"__output_alias_{index}", type=value.type, shape=value.shape
+                )
+                graph.append(
+                    ir.Node("", "Identity", inputs=[value], outputs=[alias])
+                )
+                graph.outputs[index] = alias
+                graph_outputs[index] = alias
+            taken.add(id(graph_outputs[index]))
         rename_pairs.extend(zip(graph_outputs, output_names))
 
     if not rename_pairs:
@@ -388,7 +403,11 @@ def _apply_custom_io_names_on_ir(
 
     renamed_ids = set(target_by_value.keys())
     occupied_by_other: set[str] = set()
-    for value in _top_graph_value_map(graph).values():
+    # Names inside Loop / If bodies count as well: an outer value of the same
+    # name would be shadowed (or defined twice) there.
+    for value in ir.convenience.create_value_mapping(
+        graph, include_subgraphs=True
+    ).values():
         name = getattr(value, "name", None)
         if not name:
             continue
